@@ -181,3 +181,24 @@ package reactive
 //@   call node.strobe assert arg0 == addr(r.node)
 //@   call node.strobe ghost nwalk = nwalk + 1
 //@   ensures nwalk == 1
+
+// ---- C04 / C08 (timed invalidation): whatever the duration - also zero or negative, i.e. a deadline that has passed - the
+// computation is made to depend on a fresh resource whose invalidation is scheduled after exactly that duration and whose
+// cleanup stops the timer; each step happens once.
+//@ func InvalidateAfter
+//@   ghost ndep int
+//@   ghost ntimer int
+//@   ghost nclean int
+//@   entry ghost ndep = 0
+//@   entry ghost ntimer = 0
+//@   entry ghost nclean = 0
+//@   call NewResource assume ret0 != nil
+//@   call AfterFunc assert arg0 == d
+//@   call AfterFunc ghost ntimer = ntimer + 1
+//@   call Resource.Cleanup assert arg0 == r
+//@   call Resource.Cleanup ghost nclean = nclean + 1
+//@   call AddDependency assert arg0 == ctx && arg1 == r
+//@   call AddDependency ghost ndep = ndep + 1
+//@   ensures ndep == 1 && ntimer == 1 && nclean == 1
+//@ func InvalidateAt
+//@   call InvalidateAfter assert arg0 == ctx
